@@ -148,13 +148,14 @@ impl Gen {
             }
             programs.insert(role, program);
         }
+        let sched_seed: u64;
         Scenario {
             name: name.to_string(),
             cfg,
             programs,
             yield_sites: { let _ = fine; sites(SYS_SITES) },
             schedule: Schedule::Random {
-                seed: self.rng.gen(),
+                seed: { sched_seed = self.rng.gen(); sched_seed },
                 stall_sweeper: self.rng.gen_range(0..100) < 15,
                 stall_consumer: self.rng.gen_range(0..100) < 20,
                 advance_pct: self.pick(&[0, 3, 8, 15]),
@@ -162,6 +163,8 @@ impl Gen {
                 sweeper_pct: self.pick(&[5, 20, 60]),
                 sticky_pct: self.pick(&[0, 0, 50, 85]),
                 worker_pct: self.pick(&[100, 100, 30, 8]),
+                // (derived from the schedule's seed so that the generator's random stream stays what it was)
+                full_send_pct: if sched_seed % 2 == 0 { 40 } else { 0 },
             },
             freq: Vec::new(),
             max_steps: 0,
@@ -343,13 +346,14 @@ impl Gen {
         let freq = if kn.freq_profile {
             (0..key_count).map(|key| (key, self.pick(&[0usize, 0, 1, 2, 3, 7, 20]))).collect()
         } else { Vec::new() };
+        let sched_seed: u64;
         Scenario {
             name: name.to_string(),
             cfg,
             programs,
             yield_sites: sites(SYS_SITES),
             schedule: Schedule::Random {
-                seed: self.rng.gen(),
+                seed: { sched_seed = self.rng.gen(); sched_seed },
                 stall_sweeper: self.rng.gen_range(0..100) < kn.stall_sweeper_pct,
                 stall_consumer: self.rng.gen_range(0..100) < kn.stall_consumer_pct,
                 advance_pct: self.pick(&kn.advance_pcts),
@@ -357,6 +361,8 @@ impl Gen {
                 sweeper_pct: self.pick(&kn.sweeper_pcts),
                 sticky_pct: self.pick(&kn.sticky),
                 worker_pct: self.pick(&[100, 100, 30, 8]),
+                // (derived from the schedule's seed so that the generator's random stream stays what it was)
+                full_send_pct: if sched_seed % 2 == 0 { 40 } else { 0 },
             },
             freq,
             max_steps: 0,
